@@ -1,6 +1,7 @@
 import EaselModel.Containers.KeyhashLemmas
 import EaselModel.Containers.KeyhashBounds
 import EaselModel.Containers.KeyhashInt32
+import EaselModel.Containers.KeyhashGrowthVariant
 import EaselModel.Containers.KeyhashApiLemmas
 import EaselModel.Containers.KeyhashFixedLemmas
 import EaselModel.Containers.HeapLemmas
@@ -390,7 +391,7 @@ theorem keyhash_below_bound (g : Bool) (need s : Nat) (h0 : 0 < s) (h1 : s ≤ I
     (hfit : ∃ k, need ≤ s * 2 ^ k ∧ s * 2 ^ k ≤ INT_MAX) :
     ∃ r, growC g need 32 s = .ok r ∧ growTo need 32 s = some r ∧ need ≤ r ∧ r ≤ INT_MAX := growC_ok_of_fits g need s h0 h1 hfit
 
-/-- THE DEFECT AT THE BOUND (genuine, reachable with ~3 GiB: repro /var/tmp/fixes-proposed/C19-keyhash-salloc-overflow.*):
+/-- THE DEFECT AT THE BOUND (genuine, reachable with ~3 GiB; found by this modelling, repaired in the tree by 6d58328):
     the default table (`salloc` 2048) asked for one byte more than `2^30` arena bytes doubles 19 times and then executes
     `kh->salloc *= 2` with `salloc = 2^30` — signed overflow; the guarded code throws `eslEMEM` there -/
 theorem keyhash_at_bound_default :
@@ -411,6 +412,29 @@ theorem keyhash_hashsize_at_bound (h : UInt32) (hh : h.toNat < 2 ^ 28) (H : Key 
     (3 * h).toNat = 3 * h.toNat ∧ (h <<< 3).toNat = 8 * h.toNat ∧ 8 * h.toNat < 2 ^ 31 ∧
     (2 ^ 28 ≤ kh.hashsize → upsize H kh = some kh) :=
   ⟨upsize_trigger_exact h hh, (upsize_shift_exact h hh).1, (upsize_shift_exact h hh).2, upsize_stops H kh⟩
+
+
+/-- THE TREE'S CODE: `Keyhash.growthGuarded` is regenerated from the working tree's `esl_keyhash_Store` on every run (`true` since
+    6d58328: each doubling is preceded by `if (… > INT_MAX / 2) ESL_XEXCEPTION(eslEMEM, …)`). For the variant in the tree, every
+    start value and every need: the arena loop ends at the least covering doubling exactly as the `Nat` model, or — no
+    representable doubling covers the need — it stops at the last representable one with `eslEMEM` and `salloc` unchanged (guarded
+    tree) / with a signed overflow (a tree without the guard); the same for the index arrays -/
+theorem keyhash_growth_in_tree (need s : Nat) (h0 : 0 < s) (h1 : s ≤ INT_MAX) (kalloc : Nat) :
+    ((∃ k, growC growthGuarded need 32 s = .ok (s * 2 ^ k) ∧ growTo need 32 s = some (s * 2 ^ k) ∧ need ≤ s * 2 ^ k ∧
+        s * 2 ^ k ≤ INT_MAX ∧ ∀ j, j < k → s * 2 ^ j < need) ∨
+     (∃ k, growC growthGuarded need 32 s = (if growthGuarded then .emem (s * 2 ^ k) else .overflow (s * 2 ^ k)) ∧ s * 2 ^ k < need ∧
+        s * 2 ^ k ≤ INT_MAX ∧ INT_MAX < s * 2 ^ (k + 1))) ∧
+    (kalloc * 2 ≤ INT_MAX → doubleC growthGuarded kalloc = .ok (kalloc * 2)) ∧
+    (INT_MAX < kalloc * 2 → doubleC growthGuarded kalloc = if growthGuarded then .emem kalloc else .overflow kalloc) ∧
+    (growthGuarded = true → ∀ r, growC growthGuarded need 32 s ≠ .overflow r ∧ doubleC growthGuarded kalloc ≠ .overflow r) :=
+  ⟨keyhash_at_bound growthGuarded need s h0 h1, (doubleC_char growthGuarded kalloc).1, (doubleC_char growthGuarded kalloc).2,
+    fun hg r => by rw [hg]; exact ⟨growC_guarded_no_overflow need 32 s r, doubleC_guarded_no_overflow kalloc r⟩⟩
+
+/-- the guarded code (the one in the tree) never executes an overflowing doubling, for any start value, need and fuel: the
+    outcome is a covering `salloc` or the documented `eslEMEM` -/
+theorem keyhash_growth_guarded_never_overflows (need fuel s kalloc r : Nat) :
+    growC true need fuel s ≠ .overflow r ∧ doubleC true kalloc ≠ .overflow r :=
+  ⟨growC_guarded_no_overflow need fuel s r, doubleC_guarded_no_overflow kalloc r⟩
 
 -- non-vacuity of `keyhash_below_bound`'s hypothesis: need 5000 from 2048 is covered by 2048·2^2
 example : ∃ k, 5000 ≤ 2048 * 2 ^ k ∧ 2048 * 2 ^ k ≤ INT_MAX := ⟨2, by decide, by decide⟩
